@@ -215,6 +215,9 @@ pub struct Config {
     pub known: Vec<String>,
     /// number of representative executions per phase for the call-order pass (0 = off)
     pub order_reps: usize,
+    /// directory for crash breadcrumbs: every worker records the work item it is about to explore, so that a process crash
+    /// (stack overflow, abort) inside subject code can be traced to a handful of items by bin/check
+    pub crumb_dir: Option<String>,
 }
 
 fn run_one(body: &Body, unit: usize, cx: &mut Cx) -> Verdict {
@@ -278,9 +281,12 @@ pub fn run_phase(ph: &Phase, cfg: &Config) -> PhaseReport {
     let suspects: Mutex<Option<(usize, Violation)>> = Mutex::new(None);
     let nthreads = cfg.threads.max(1).min(items.len().max(1));
     let sample_item = if !items.is_empty() { (cfg.seed as usize).wrapping_mul(2654435761) % items.len() } else { 0 };
+    let tids = AtomicUsize::new(0);
     std::thread::scope(|s| {
         for _ in 0..nthreads {
             s.spawn(|| {
+                let tid = tids.fetch_add(1, Ordering::SeqCst);
+                let crumb = cfg.crumb_dir.as_ref().and_then(|d| std::fs::OpenOptions::new().create(true).write(true).open(format!("{d}/t{tid}")).ok());
                 let mut st = Stats { classes: vec![0; ph.classes.len()], ..Default::default() };
                 let mut viol: Option<(usize, Violation)> = None;
                 let mut suspect: Option<(usize, Violation)> = None;
@@ -291,6 +297,11 @@ pub fn run_phase(ph: &Phase, cfg: &Config) -> PhaseReport {
                     let it = next.fetch_add(1, Ordering::SeqCst);
                     if it >= items.len() || it > min_bad.load(Ordering::SeqCst) {
                         break;
+                    }
+                    if let Some(f) = &crumb {
+                        use std::os::unix::fs::FileExt;
+                        let rec = format!("{:<40}\n", format!("{}\t{}", ph.name, it));
+                        let _ = f.write_all_at(rec.as_bytes(), 0);
                     }
                     let (unit, fixed) = (items[it].0, &items[it].1);
                     let floor = fixed.len();
@@ -547,6 +558,32 @@ fn run_single_q(ph: &Phase, unit: usize, choices: &[u32], thorough: bool, seed: 
     (v, cx.choices())
 }
 
+/// explore one work item on the calling thread, recording every execution in `crumb` before it is run (crash localisation)
+pub fn run_item(ph: &Phase, thorough: bool, seed: u64, item: usize, crumb: &str) -> i32 {
+    use std::os::unix::fs::FileExt;
+    let cfg = Config { thorough, seed, threads: 1, cap_s: 1e9, known: vec![], order_reps: 0, crumb_dir: None };
+    let (items, _) = work_items(ph, &cfg);
+    let Some((unit, fixed)) = items.get(item).cloned() else { machinery("item index out of range") };
+    let f = std::fs::OpenOptions::new().create(true).write(true).truncate(true).open(crumb).unwrap_or_else(|e| machinery(&format!("crumb file: {e}")));
+    let mut cx = Cx::new(ph.classes.len(), thorough, seed);
+    let floor = fixed.len();
+    cx.forced = fixed.clone();
+    cx.forced_widths = vec![0; floor];
+    let mut n = 0u64;
+    loop {
+        // the choices of the coming execution are not known before it runs: record the forced prefix (the rest defaults to 0)
+        let rec = format!("{:<4000}\n", json!({"unit": unit, "choices": cx.forced}).to_string());
+        let _ = f.write_all_at(rec.as_bytes(), 0);
+        let _ = run_one(&ph.body, unit, &mut cx);
+        n += 1;
+        if !advance(&mut cx, floor) {
+            break;
+        }
+    }
+    println!("item {item} of phase {}: {n} executions, no crash", ph.name);
+    0
+}
+
 /// run exactly one execution (for replay): returns the verdict and the trail taken
 pub fn run_single(ph: &Phase, unit: usize, choices: &[u32], thorough: bool, seed: u64) -> (Verdict, Vec<u32>) {
     let mut cx = Cx::new(ph.classes.len(), thorough, seed);
@@ -625,6 +662,11 @@ pub fn run_check(chk: Check, thorough: bool, seed: u64, extra_violation: Option<
         cap_s: std::env::var("VERIF_CAP_S").ok().and_then(|s| s.parse().ok()).unwrap_or(if thorough { 3000.0 } else { 600.0 }),
         known: known_keys,
         order_reps: std::env::var("VERIF_ORDER_REPS").ok().and_then(|s| s.parse().ok()).unwrap_or(if thorough { 320 } else { 128 }),
+        crumb_dir: {
+            let d = format!("{root}/evidence/parts/crumbs-{}", chk.id);
+            let _ = std::fs::remove_dir_all(&d);
+            std::fs::create_dir_all(&d).ok().map(|_| d)
+        },
     };
     let mut reports = vec![];
     for ph in &chk.phases {
